@@ -193,6 +193,7 @@ def coq_make(vo_targets, timeout=1500):
     coq_makefile-generated Makefile of the target's area, serialised per area by flock"""
     area = _area_of(vo_targets[0])
     os.makedirs(WORK, exist_ok=True)
+    gen_constants()          # every build sees the constants of /repo's current source
     mk = coq_project(area)
     lock = os.path.join(WORK, "coq.%s.lock" % area)
     rc, out = sh(["flock", lock, "make", "-f", mk, "-j%d" % NCPU] + list(vo_targets), cwd=COQ, timeout=timeout)
